@@ -38,6 +38,7 @@ ATOM_MAKERS = (
     ("generator", _gen),
     ("MyList", lambda: K.MyList([1])),
     ("MyDict", lambda: K.MyDict(a=1)),
+    ("float1", lambda: 1.0),  # 1 == True == 1.0 and they hash alike: value-keyed caches confuse them
 )
 ATOM_INDEX = {n: i for i, (n, _) in enumerate(ATOM_MAKERS)}
 
@@ -69,7 +70,7 @@ class Grammar:
         }
 
 
-ALL_ATOMS = tuple(n for n, _ in ATOM_MAKERS)
+ALL_ATOMS = tuple(n for n, _ in ATOM_MAKERS if n != "float1")
 G_QUICK = Grammar(top_atoms=ALL_ATOMS, elem_atoms=("int", "str", "None"), max_size=2, depth=1)
 G_SMALL = Grammar(top_atoms=("int", "str", "None", "A", "B"), elem_atoms=("int", "str", "None"),
                   containers=("list", "tuple", "dict_str", "dict_int", "set"), max_size=2, depth=1, str_keys=("a", "b"))
@@ -78,6 +79,11 @@ G_TINY = Grammar(top_atoms=("int", "None", "A", "B"), elem_atoms=("int", "str"),
 G_MEDIUM = Grammar(top_atoms=ALL_ATOMS, elem_atoms=("int", "str", "None", "A", "B", "cls_A"), max_size=2, depth=1)
 G_DEEP = Grammar(top_atoms=ALL_ATOMS, elem_atoms=("int", "str", "None", "A", "B"), max_size=2, depth=2)
 G_FULL1 = Grammar(top_atoms=ALL_ATOMS, elem_atoms=ALL_ATOMS[:17], max_size=3, depth=1)
+
+
+# equal-comparing, equal-hashing atoms of three different classes, alone and inside tuples / lists: whatever a
+# value-keyed memo (functools.lru_cache on get_type, a dict keyed by the value) confuses shows up in a pair
+G_EQ = Grammar(top_atoms=("int", "bool", "float1"), elem_atoms=("int", "bool", "float1", "str"), containers=("tuple", "list"), max_size=2, depth=1)
 
 
 def _atom(name):
